@@ -232,6 +232,9 @@ func effectsPass(w *World, id string) []*OwnOb {
 		out = append(out, checkFormatTable(w)...)
 		out = append(out, checkOutputFileOpen(w, lib)...)
 		out = append(out, checkWrittenBytes(w)...)
+		out = append(out, checkPartsDecodedAsIs(w)...)
+	case "C04":
+		out = append(out, checkPartsDecodedAsIs(w)...)
 	case "C20":
 		out = append(out, checkWrapper(w)...)
 	case "C08":
@@ -1070,6 +1073,52 @@ func checkFormatTable(w *World) []*OwnOb {
 // checkOutputFileOpen: C05 — a file that bkl writes is replaced, never patched: every os.OpenFile in the library that
 // can write passes constant flags containing O_TRUNC and O_CREATE (os.Create is the same thing), and OutputToFile has
 // such a site and hands that handle, and nothing else, the encoded stream (one OutputToWriter call on it, no other write).
+// checkPartsDecodedAsIs: the YAML and TOML stream readers hand every part of the split text to the decoder as it is:
+// the decoder's argument is []byte(<the range variable over the parts>), and that variable is not assigned in the loop
+// (a trimmed or rewritten part loses the line breaks a block scalar ends in).
+func checkPartsDecodedAsIs(w *World) []*OwnOb {
+	var out []*OwnOb
+	for _, spec := range [][2]string{{".:yamlUnmarshalStream", "yaml.v3.Unmarshal"}, {".:tomlUnmarshalStream", "Unmarshal"}} {
+		fi := findFunc(w, spec[0])
+		if fi == nil {
+			continue
+		}
+		info := fi.Pkg.TypesInfo
+		ok, n := true, 0
+		ast.Inspect(fi.Decl.Body, func(nd ast.Node) bool {
+			rs, isRange := nd.(*ast.RangeStmt)
+			if !isRange || rs.Value == nil {
+				return true
+			}
+			part := identObj(rs.Value, info)
+			ast.Inspect(rs.Body, func(x ast.Node) bool {
+				switch y := x.(type) {
+				case *ast.AssignStmt:
+					for _, l := range y.Lhs {
+						if part != nil && identObj(l, info) == part {
+							ok = false // the part is rewritten before (or after) it is decoded
+						}
+					}
+				case *ast.CallExpr:
+					name := extFuncName(y, info)
+					if strings.HasSuffix(name, ".Unmarshal") && len(y.Args) == 2 {
+						n++
+						conv, isConv := y.Args[0].(*ast.CallExpr)
+						if !isConv || len(conv.Args) != 1 || exprString(conv.Fun) != "[]byte" || part == nil || identObj(conv.Args[0], info) != part {
+							ok = false
+						}
+					}
+				}
+				return true
+			})
+			return true
+		})
+		out = append(out, &OwnOb{Key: fi.Key + ".effects[every part is decoded as it is]", Kind: "effects", OK: ok && n == 1, Pos: posStr(w, fi.Decl.Pos()),
+			Why: "the decoder must get []byte(part) for the range variable over the split text, and the part must not be rewritten in the loop: trailing line breaks are content (block scalars)"})
+	}
+	return out
+}
+
 // checkWrittenBytes: OutputToWriter hands its writer exactly what Output returned (the encoded stream, byte for byte):
 // the argument of the single Write call is a variable whose only assignment is the result of p.Output(...). The tools'
 // mains write exactly what MarshalStream returned, likewise.
